@@ -24,7 +24,13 @@ GetBlock(p, k) == /\ Len(hist) < MaxCalls /\ k \in 1..d
                   /\ hist' = Append(hist, [p |-> p, k |-> k])
                   /\ rets' = Append(rets, blocks'[p][k])
                   /\ UNCHANGED d
-Next == \E p \in 1..Len(Base), k \in 1..MaxD : GetBlock(p, k)
+\* the solve-time generation of the partition constraints may also happen in the middle (a solve, then more points are
+\* decomposed, then another solve): [p |-> 0, k |-> 0] in the history.  It changes no block.
+Gen == /\ Len(hist) < MaxCalls /\ Len(hist) >= 1 /\ hist[Len(hist)].p # 0
+       /\ \A i \in 1..Len(hist) : hist[i].p # 0                       \* at most one intermediate generation
+       /\ hist' = Append(hist, [p |-> 0, k |-> 0]) /\ rets' = Append(rets, ZeroV(MaxP))
+       /\ UNCHANGED <<d, np, blocks>>
+Next == (\E p \in 1..Len(Base), k \in 1..MaxD : GetBlock(p, k)) \/ Gen
 Spec == Init /\ [][Next]_vars
 \* ---- what the property says, on a table of blocks
 Decomposed(B) == {p \in 1..Len(B) : B[p] # <<>>}
@@ -46,5 +52,5 @@ RealOK == \A dd \in 1..MaxD : \A f \in CoordPartitions(dd) : \A v, w \in Grid :
              /\ LET RECURSIVE S(_)  S(b) == IF b > dd THEN [c \in 1..Dim |-> Z] ELSE VAdd(Proj(f, b, v), S(b + 1)) IN S(1) = v
              /\ \A b1, b2 \in 1..dd : b1 # b2 => VDot(Proj(f, b1, v), Proj(f, b2, w)) = Z
 ASSUME RealOK
-Emit == Len(hist) = MaxCalls => PrintT(ToJson([d |-> d, h |-> hist]))
+Emit == (Len(hist) = MaxCalls /\ hist[Len(hist)].p # 0) => PrintT(ToJson([d |-> d, h |-> hist]))
 =============================================================================
